@@ -215,6 +215,18 @@ CHECKS["C16"] = dict(
     technique="TLA+ reference model; trees and patterns enumerated by TLC, file-system observations validated by TLC",
     design="7/C16")
 
+CHECKS["C19"] = dict(
+    category="exploration",
+    text="Exploration driven by the specifications' input spaces: every string up to N characters over the shell's special characters "
+         "(CharGen.tla; accepted ones go downstream), ShellGen programs, accepted ShellRec strings -> Pos/End of every node, Fprint under "
+         "each of the 256 configurations of PrintRT.tla, Expand of every word under every mode; every string up to 3 characters over an "
+         "arithmetic and a pattern alphabet -> Eval, Match, Glob; all 2^14 Option values against Opts.tla.  Robust.tla validates no "
+         "panic, only documented error values, Option.String as specified.  The spec adds no semantics beyond Opts here (as stated in "
+         "DESIGN.md), hence exploration level.",
+    note="Trusted: recover()-based isolation per call in the driver; the corpora are bounded enumerations, not all inputs.",
+    technique="TLA+-enumerated corpora fed to every downstream entry point, observations validated by TLC",
+    design="7/C19")
+
 NOT_APPLICABLE = {}
 
 ALL = ["C%02d" % i for i in range(1, 21)]
